@@ -2,7 +2,7 @@
 // the planner / collector / loader part on the federation lab (see tools/props/c14.py; the
 // renderer part runs through harness/cmd/c02 -auth 1).
 //
-//	c14 fixture [-name iface|mut] [-p I] [-op J] [-mode pre|post] [-d "T.f,.."|-] [-maxd N] -out FILE
+//	c14 fixture [-name iface|grid|mut] [-p I] [-op J] [-mode pre|post] [-d "T.f,.."|-] [-hooks none|rl|rlx|tr|rltr] [-maxd N] -out FILE
 //	    the hand-written federations of harness/c14lab/fixtures.go: every operation x protected set,
 //	    all decision functions (2^n for n <= 6 coordinates, else maxd random), both authorizer modes
 //	c14 gen -seed S -n NCFG [-from I] [-p 0|1] [-op J] [-mode ..] [-d ..] [-maxd N] [-knobs K] -out FILE
